@@ -68,6 +68,21 @@ func (c14) Gen(r *sim.Rand, tier string, run uint64) *sim.Scenario {
 		sc.Cfg["sinkk"] = int64(r.Intn(40))
 	}
 	sc.Cfg["rc"] = int64(r.Intn(2))
+	if kind == 1 && r.Chance(1, 5) {
+		// cpualt executing out of open bus: a 16-byte block is left unattached (reads return
+		// the bus latch Bus.M) and the program jumps to its last byte
+		hole := int64(r.Intn(0x70))<<16 | int64(sim.PickInt(r, 0xA9, 0xAD, 0xA2, 0x69, 0xC9, 0x8D, 0x29, r.Intn(256)))<<8 | int64(r.Intn(16))<<4
+		sc.Cfg["hole"] = hole
+		tgt := hole + 15 - int64(r.Intn(3))
+		jmp := sim.Op{K: "i", B: []byte{0x4C, byte(tgt), byte(tgt >> 8)}}
+		at := r.Intn(3)
+		if at > len(sc.Ops) {
+			at = len(sc.Ops)
+		}
+		sc.Ops = append(sc.Ops[:at], append([]sim.Op{jmp}, sc.Ops[at:]...)...)
+		sc.Cfg["pc"] = hole&0xFF0000 | 0x0200
+		sc.Cfg["sink"] = 0
+	}
 	return sc
 }
 
@@ -245,6 +260,10 @@ func checkLines(lines []string, recs []preStep, st *sim.Stats) *sim.Violation {
 		if i >= len(recs) {
 			break
 		}
+		if recs[i].Ins == nil {
+			st.Probe("executing_from_open_bus")
+			continue
+		}
 		t, err := parseTraceLine(ln)
 		if err != nil {
 			return &sim.Violation{Oracle: "trace_unparsable", Step: i, Msg: err.Error()}
@@ -291,7 +310,11 @@ func c14alt(sc *sim.Scenario, env *sim.Env) *sim.Violation {
 	ss := sim.NewSink(env, int(sc.C("sink"))&3, int(sc.C("sinkk"))*4)
 	run := func(traced bool) (Regs, *SimMem, []preStep, [][]byte, bool, string) {
 		mem := mkMem()
-		mc := NewAltMachine(env, 0, mem, 0, 0)
+		var holeLo, holeHi uint32
+		if h := uint32(sc.C("hole")); h != 0 {
+			holeLo, holeHi = h&0xFFFFF0, h&0xFFFFF0|0xF
+		}
+		mc := NewAltMachine(env, 0, mem, holeLo, holeHi)
 		mc.CPU.SetRegs(startRegs(sc))
 		var recs []preStep
 		var lines [][]byte
@@ -300,7 +323,12 @@ func c14alt(sc *sim.Scenario, env *sim.Env) *sim.Violation {
 				r := mc.CPU.Regs()
 				ins := make([]byte, 4)
 				for k := 0; k < 4; k++ {
-					ins[k] = mem.Peek(uint32(r.RK)<<16 | uint32(r.PC+uint16(k)))
+					a := uint32(r.RK)<<16 | uint32(r.PC+uint16(k))
+					ins[k] = mem.Peek(a)
+					if holeHi > holeLo && a >= holeLo && a <= holeHi {
+						ins = nil // the bytes there are whatever the bus latch holds: not recorded
+						break
+					}
 				}
 				recs = append(recs, preStep{r, ins})
 				if traced {
